@@ -537,7 +537,9 @@ def gen_lib_case(rng, tables):
     d = rng.choice([",", ",", " ", ";"])
     if d != ",":
         args.append(("d", d))
-    proj = rng.random() < 0.5 and m in LINEAR
+    # projection files: both requested (written for linear methods), or only one of them (documented: the
+    # projection is written "when both files are requested": nothing must be written)
+    proj = rng.choice(["both", "both", "mat", "mean"]) if (rng.random() < 0.6 and m in LINEAR) else False
     file_rows = transpose(uniq) if "transpose-input" in flags else uniq
     content = write_text(file_rows, d)
     return {"kind": "lib", "args": args, "content": content, "points": uniq, "proj": proj}
@@ -789,9 +791,11 @@ class Checker:
         for b, i in zip(blocks, idx):
             c = cases[i]
             args = [tuple(a) for a in c["args"]]
-            extra = ["pm.txt", "pv.txt"] if c.get("proj") else []
-            argv = argv_of(args) + (["--opmat", self.tool.path("pm.txt"), "--opmean", self.tool.path("pv.txt")]
-                                    if c.get("proj") else [])
+            proj = c.get("proj")
+            proj = "both" if proj is True else proj
+            extra = ["pm.txt", "pv.txt"] if proj else []
+            argv = argv_of(args) + (["--opmat", self.tool.path("pm.txt")] if proj in ("both", "mat") else []) \
+                + (["--opmean", self.tool.path("pv.txt")] if proj in ("both", "mean") else [])
             res = self.tool.cli(argv, c["content"], extra_files=extra)
             self.evals += 1
             meth = dict((n, v) for n, v in args if n in ("m", "method")).popitem()[1]
@@ -821,7 +825,12 @@ class Checker:
             elif res["output"] != want and not (pre and close_text(res["output"], want, d)):
                 why = "the embedding written is not the one the library returns for the documented parameters: " \
                       "expected %r got %r" % (want[:160], (res["output"] or "")[:160])
-            elif c.get("proj"):
+            elif proj in ("mat", "mean"):
+                leaked = {k: v for k, v in res["files"].items() if v}
+                if leaked:
+                    why = "only one projection file was requested (documented: written when both are), but the " \
+                          "tool wrote %r" % {k: v[:60] for k, v in leaked.items()}
+            elif proj == "both":
                 pm = re.search(r"PM (\d+) (\d+)\n(.*?)PV (\d+)\n(.*)", rest, re.S)
                 if pm:
                     wpm = write_text([[float(x) for x in l.split(",")] for l in pm.group(3).split("\n") if l], d)
